@@ -146,6 +146,11 @@ def run_decoder_part(tier, chk):
             if c['clause'] == 'C10.total':
                 if o['k'] == 'internal':
                     key = dict({'clause': 'C10.total', 'how': 'internal'}, **o['exc'])
+                    if 'name' in key:
+                        # a mnemonic without AT&T name: the class is (name, what the reference decoder says about the bytes), so that a
+                        # VALID instruction which suddenly renders under an ...INVALID name is a different class
+                        tag = c.get('spec', '') if c['where'] == 'base' else 'derived_input'
+                        key['name'] = (key['name'] if tag == 'valid' else '*') + '|' + tag
                 elif o['k'] == 'instr' and not o['both']:
                     key = {'clause': 'C10.total', 'how': 'not rendered in both syntaxes'}
                 else:
